@@ -42,7 +42,7 @@ def add_threaded(rng, c):
 def generate(rng, tier):
     quick = tier != 'thorough'
     cases = []
-    n = 230 if quick else 8000
+    n = 230 if quick else 4000
     for i in range(n):
         c = NC.gen_relay(rng, profile='teardown', handler='http',
                          n_events=rng.choice([8, 12, 18, 26]) if quick else rng.choice([12, 30, 60, 100]))
